@@ -57,6 +57,28 @@ def make_empty_round(rep, r, tier):
                     except Exception as e:
                         rep.failure('NiftiWrapper(img %s, make_empty=True) raised %r' % (shape, e),
                                     {'tag': 'make_empty:wrapper:%dD' % len(shape), 'suite': 'make_empty', 'shape': shape, 'sd': sd})
+            if 3 <= len(shape) <= 5 and status == 'ok' and sd in (None, 1):
+                # an image whose orientation is carried by the qform alone (sform code 0, zeroed srows): the new extension
+                # records the affine the image has
+                try:
+                    A = np.array([[0.0, -2.0, 0.0, 10.0], [1.5, 0.0, 0.0, -20.0], [0.0, 0.0, 3.0, 5.0], [0.0, 0.0, 0.0, 1.0]])
+                    im0 = nb.Nifti1Image(np.zeros(shape, dtype=np.int16), A)
+                    h0 = im0.header.copy()
+                    h0.set_qform(A, code=1)
+                    h0['sform_code'] = 0
+                    for rn in ('srow_x', 'srow_y', 'srow_z'):
+                        h0[rn] = 0
+                    h0.set_dim_info(slice=sd)
+                    imq = nb.Nifti1Image(np.zeros(shape, dtype=np.int16), h0.get_best_affine(), h0)
+                    assert int(imq.header['sform_code']) == 0 and not np.any(imq.header['srow_x']), 'fixture: sform not cleared'
+                    with contextlib.redirect_stdout(io.StringIO()):
+                        wq = NiftiWrapper(imq, make_empty=True)
+                    for f in CW.img_matches(wq)[:1]:
+                        rep.failure('NiftiWrapper(qform-only img %s, make_empty=True): %s' % (shape, f),
+                                    {'tag': 'make_empty:wrapper:qform:%dD' % len(shape), 'suite': 'make_empty', 'shape': shape, 'sd': sd})
+                except Exception as e:
+                    rep.failure('NiftiWrapper(qform-only img %s, make_empty=True) raised %r' % (shape, e),
+                                {'tag': 'make_empty:wrapper:qform:%dD' % len(shape), 'suite': 'make_empty', 'shape': shape, 'sd': sd})
             reqs.append({'op': 'make_empty', 'shape': shape, 'sd': sd})
             meta.append((shape, sd, status, ext))
     co = rep.corr.setdefault('make_empty', {'cases': 0, 'agree': 0, 'disagree': 0, 'skipped': 0})
